@@ -284,6 +284,8 @@ class CoreMixin:
             goal = z3.BoolVal(False)
         name = '%s/%s/%s' % (self.contract.prop, self.contract.label, kind)
         o = Obligation(name, self.hyps(st), goal, meta={'detail': detail})
+        if self.contract.flags.get('replay_decides'):
+            o.meta['replay_decides'] = True
         self.obligs.append(o)
         return o
 
